@@ -23,38 +23,47 @@ func TestC14Exhaustive(t *testing.T) {
 	maxCap := vstat.Pick(3, 4)
 	total := int64(0)
 	depths := map[int]int{}
-	for cp := 0; cp <= maxCap; cp++ {
-		alpha := Alphabet(cp)
-		depth := vstat.Pick(4, 5) // capacities 2 and 3
-		if cp == 0 {
-			depth = vstat.Pick(5, 6)
-		}
-		if cp == 1 {
-			depth = vstat.Pick(4, 6)
-		}
-		if cp == 4 {
-			depth = 4
-		}
-		depths[cp] = depth
-		ops := make([]Op, 0, depth)
-		total += enum.Lists(len(alpha), depth, shard, shards, func(idx []int) {
-			ops = ops[:0]
-			for _, i := range idx {
-				ops = append(ops, alpha[i])
+	wideDepth := vstat.Pick(3, 4)
+	for pass := 0; pass < 2; pass++ {
+		for cp := 0; cp <= maxCap; cp++ {
+			alpha := Alphabet(cp)
+			depth := vstat.Pick(4, 5) // capacities 2 and 3
+			if cp == 0 {
+				depth = vstat.Pick(5, 6)
 			}
-			c := Case{Cap: cp, Ops: ops}
-			info, v := Run(c)
-			if v != nil {
-				c.Ops = append([]Op(nil), ops...)
-				st.Report(t, "TestC14Exhaustive", c, v)
+			if cp == 1 {
+				depth = vstat.Pick(4, 6)
 			}
-			if info.NonTrivial() {
-				c.Ops = append([]Op(nil), ops...)
+			if cp == 4 {
+				depth = 4
 			}
-			record(c, info)
-		})
+			if pass == 1 {
+				// second pass: the alphabet widened by the arguments congruent to in-range ones modulo 2^16, 2^31, 2^32,
+				// one level shallower (the lists without such an argument were all run in the first pass)
+				alpha, depth = WideAlphabet(cp), wideDepth
+			} else {
+				depths[cp] = depth
+			}
+			ops := make([]Op, 0, depth)
+			total += enum.Lists(len(alpha), depth, shard, shards, func(idx []int) {
+				ops = ops[:0]
+				for _, i := range idx {
+					ops = append(ops, alpha[i])
+				}
+				c := Case{Cap: cp, Ops: ops}
+				info, v := Run(c)
+				if v != nil {
+					c.Ops = append([]Op(nil), ops...)
+					st.Report(t, "TestC14Exhaustive", c, v)
+				}
+				if info.NonTrivial() {
+					c.Ops = append([]Op(nil), ops...)
+				}
+				record(c, info)
+			})
+		}
 	}
-	st.SetExhaustive("ring_oplists", map[string]any{"depth_by_capacity": depths, "lists": total, "shards": shards, "hooks": hooksOn})
+	st.SetExhaustive("ring_oplists", map[string]any{"depth_by_capacity": depths, "depth_with_congruent_arguments": wideDepth, "lists": total, "shards": shards, "hooks": hooksOn})
 }
 
 func genCase(t *rapid.T) Case {
@@ -69,10 +78,22 @@ func genCase(t *rapid.T) Case {
 	default:
 		cp = rapid.IntRange(21, 300).Draw(t, "cap")
 	}
-	arg := func(lo, hi int) *rapid.Generator[int] {
-		return rapid.OneOf(rapid.IntRange(lo, hi), rapid.IntRange(lo, min(hi, 3)), rapid.IntRange(max(lo, cp-2), hi), rapid.IntRange(-1000, 100000),
-			rapid.SampledFrom([]int{math.MaxInt, math.MaxInt - 1, math.MaxInt / 2, math.MaxInt32, math.MaxInt32 + 1, 1 << 40, math.MinInt, math.MinInt + 1, -1 << 40}))
+	// congruent: a value of [lo, hi] moved out of range by a multiple of 2^16, 2^31 or 2^32 (its low bits still look in range)
+	congruent := func(lo, hi int, moduli []int, mult []int) *rapid.Generator[int] {
+		return rapid.Custom(func(t *rapid.T) int {
+			k := rapid.OneOf(rapid.IntRange(lo, hi), rapid.IntRange(lo, min(hi, 3))).Draw(t, "low")
+			return k + rapid.SampledFrom(mult).Draw(t, "mult")*rapid.SampledFrom(moduli).Draw(t, "modulus")
+		})
 	}
+	plain := func(lo, hi int) []*rapid.Generator[int] {
+		return []*rapid.Generator[int]{rapid.IntRange(lo, hi), rapid.IntRange(lo, min(hi, 3)), rapid.IntRange(max(lo, cp-2), hi), rapid.IntRange(-1000, 100000),
+			rapid.SampledFrom([]int{math.MaxInt, math.MaxInt - 1, math.MaxInt / 2, math.MaxInt32, math.MaxInt32 + 1, 1 << 40, math.MinInt, math.MinInt + 1, -1 << 40})}
+	}
+	arg := func(lo, hi int) *rapid.Generator[int] {
+		return rapid.OneOf(append(plain(lo, hi), congruent(lo, hi, Moduli, []int{1, 1, 1, 2, 3, -1, -2, 255, 1 << 20}))...)
+	}
+	// ReadN needs a real destination slice: its length can leave the range by small multiples of 2^16 only
+	readnArg := rapid.OneOf(append(append(append(plain(0, cp+2), plain(0, cp+2)...), plain(0, cp+2)...), congruent(0, cp+2, Moduli[:1], []int{1, 1, 2, 3}))...)
 	opGen := rapid.Custom(func(t *rapid.T) Op {
 		switch rapid.IntRange(0, 15).Draw(t, "kind") {
 		case 0, 1, 2, 3, 4, 5, 6:
@@ -80,7 +101,7 @@ func genCase(t *rapid.T) Case {
 		case 7, 8:
 			return Op{K: "r"}
 		case 9, 10, 11:
-			return Op{K: "n", N: min(1<<20, max(0, arg(0, cp+2).Draw(t, "n")))} // ReadN needs a real destination slice
+			return Op{K: "n", N: min(1<<20, max(0, readnArg.Draw(t, "n")))}
 		case 12, 13:
 			return Op{K: "s", N: arg(-1, cp+2).Draw(t, "n")}
 		case 14:
@@ -135,6 +156,15 @@ func TestReplay(t *testing.T) {
 			t.Fatalf("cannot load %s: %v", p, err)
 		}
 		vstat.For(prop).Report(t, "TestReplay", sc, runShapeCase(sc))
+		return
+	}
+	if env, err := vstat.LoadReplay(p, nil); err == nil && env.Test == "TestC14Independent" {
+		var pc parCase
+		if _, err := vstat.LoadReplay(p, &pc); err != nil {
+			t.Fatalf("cannot load %s: %v", p, err)
+		}
+		_, v := runPar(pc)
+		vstat.For(prop).Report(t, "TestReplay", pc, v)
 		return
 	}
 	var c Case
